@@ -103,9 +103,11 @@ def encode_value(w: Writer, res: T.Resolver, t: list, v, path: str) -> None:
         else:
             items = list(v)
         if k == "arr":
-            assert len(items) == t[2], (path, len(items), t[2])
+            if not (len(items) == t[2]):  # not an assert statement: workers may run under python -O
+                raise AssertionError((path, len(items), t[2]))
         else:
-            assert len(items) <= t[2], (path, len(items), t[2])
+            if not (len(items) <= t[2]):  # not an assert statement: workers may run under python -O
+                raise AssertionError((path, len(items), t[2]))
             w.ctl.append(("len", w.n, T.prefix_width(t[2]), t[2]))
             w.bits(len(items), T.prefix_width(t[2]))
         for i, x in enumerate(items):
